@@ -406,6 +406,12 @@ def measure_kind(ex, x, F):
             inner = x[2][0]
             if inner[0] == 'call' and str_method(ex, inner, 'chars') and strip_view(ex, inner[2][0]) == F:
                 return 'charcount'
+            # `chars().take(L).count()` = min(char count, L)
+            ci = ex.callees.get(inner[1]) if inner[0] == 'call' else None
+            if ci is not None and ci.name == 'take' and len(inner[2]) == 2:
+                it = inner[2][0]
+                if it[0] == 'call' and str_method(ex, it, 'chars') and strip_view(ex, it[2][0]) == F:
+                    return ('charcount_capped', inner[2][1])
         if (p.endswith('str::<impl str>::len') or p.endswith('string::String::len')) and strip_view(ex, x[2][0]) == F:
             return 'bytelen'
     return None
@@ -433,6 +439,27 @@ def norm_check(ex, cond, val, F):
     if c[0] == 'bin' and c[1] in OPSET:
         a, b = c[2], c[3]
         ma, mb = measure_kind(ex, a, F), measure_kind(ex, b, F)
+        for (m_, side, other) in ((ma, 'a', b), (mb, 'b', a)):
+            if isinstance(m_, tuple) and m_[0] == 'charcount_capped':
+                # min(cc, L) compared with B: the same verdict as cc compared with B iff the cap does not bite below/at B
+                cap = m_[1]
+                acc_ = {o for o in ORD if (o in OPSET[c[1]]) == t} - {'Un'}
+                if side == 'b':
+                    acc_ = {FLIP[o] for o in acc_}
+                eff = None
+                if cap[0] == 'const' and other[0] == 'const' and cap[2] is not None and other[2] is not None:
+                    L, B = const_value(cap), const_value(other)
+                    need_strict = acc_ in ({'Lt', 'Eq'}, {'Gt'})          # m <= B / m > B need L > B ; m >= B / m < B need L >= B
+                    eff = (L > B) if need_strict else (L >= B)
+                if eff is True:
+                    if side == 'a':
+                        ma = 'charcount'
+                    else:
+                        mb = 'charcount'
+                elif eff is False:
+                    return {'kind': 'cmp', 'measure': 'charcount capped below the bound (the comparison is vacuous)', 'accept': acc_, 'bound': other, 'aty': c[4]}
+                else:
+                    return {'kind': 'unknown', 'term': c}
         if ma and not mb and not contains(b, F):
             acc = {o for o in ORD if (o in OPSET[c[1]]) == t} - {'Un'}
             return {'kind': 'cmp', 'measure': ma, 'accept': acc, 'bound': b, 'aty': c[4]}
@@ -1819,6 +1846,11 @@ def check_messages(rep, g):
             bv = const_value(chk['bound'])
             bound_named = re.search(r'(?<![\w.])' + re.escape(repr(bv).rstrip('0').rstrip('.') if isinstance(bv, float) else str(bv)), text) is not None
         rep.ob('R-MSG', bound_named, g, f'{what}: names the declared bound', {'text': text, 'args': [show(a[1]) for a in args], 'bound': show(chk['bound'])})
+        want_measure = 'charcount' if k.startswith('len_char') else 'value'
+        if chk['measure'] != want_measure:
+            rep.ob('R-MSG', False, g, f'{what}: the validator tests `{chk["measure"]}`, the message states a constraint on the '
+                   f'{"character count" if want_measure == "charcount" else "value"}', {'text': text})
+            continue
         rel, phrase = stated_relation(text)
         if rel is None:
             rep.ob('R-MSG', None, g, f'{what}: no relation phrase recognised in the text', {'text': text})
